@@ -646,7 +646,7 @@ def eam_grid(nmax=24):
 
 
 @st.composite
-def eam_model(draw, kind="eam", n_min=1, n_max=4, depth=1, pycallables=False, max_customs=1):
+def eam_model(draw, kind="eam", n_min=1, n_max=4, depth=1, pycallables=False, max_customs=1, pool=None):
     """EAM ("eam"), Finnis-Sinclair ("fs") or ADP ("adp") model.
     {"kind", "env", "elements": [...] (embedding declaration order), "embed": [[A, pd]],
      "density": [[A, pd]] | "density_fs": [[A, B, pd]], "pair": [[A, B, pd]],
@@ -654,7 +654,7 @@ def eam_model(draw, kind="eam", n_min=1, n_max=4, depth=1, pycallables=False, ma
     Any subset of pairs / FS densities may be undeclared; pairs may name foreign species."""
     customs = draw(custom_forms(max_customs, 1)) if max_customs else []
     n = draw(st.integers(n_min, n_max))
-    els = draw(st.lists(st.sampled_from(ELEMENTS + INVENTED), min_size=n, max_size=n, unique=True))
+    els = draw(st.lists(st.sampled_from(pool or (ELEMENTS + INVENTED)), min_size=n, max_size=n, unique=True))
     pdraw = potdef(depth, customs, [], max_ranges=2)
     p0 = potdef(0, customs, [], max_ranges=2)
 
@@ -730,12 +730,12 @@ EAM_TARGETS = {"setfl": "eam", "lammps_eam_alloy": "eam", "DL_POLY_EAM": "eam", 
 
 
 @st.composite
-def any_model(draw, targets=None, n_min=1, n_max=3, depth=1, tables=True, customs=True):
+def any_model(draw, targets=None, n_min=1, n_max=3, depth=1, tables=True, customs=True, pool=None):
     """a whole potable model for any tabulation target: {"target", "kind", ...} in the shape
     vlib.anymodel.sections_of() understands (pair models carry cutoff/nr, EAM models a grid)"""
     target = draw(st.sampled_from(targets or (PAIR_TARGETS + sorted(EAM_TARGETS))))
     if target in EAM_TARGETS:
-        m = draw(eam_model(EAM_TARGETS[target], n_min, n_max, depth=depth, max_customs=1 if customs else 0))
+        m = draw(eam_model(EAM_TARGETS[target], n_min, n_max, depth=depth, max_customs=1 if customs else 0, pool=pool))
         if tables and draw(st.integers(0, 2)) == 0:
             t = draw(table_form("tab1", 8, x0=0.0))
             m["env"]["table"] = [t]
